@@ -25,6 +25,13 @@ CHECKS = {
         note="Trusted: clang-14 JSON AST (parsed with -DTHM_EPSILON=1e-10 as CMake does), CPython ast, sympy cancel/diff/integrate as normaliser, engine/symalg.py translators. Generic branch of _f (distinct vertex frequencies).",
         ref="DESIGN.md §3 C11",
     ),
+    "C13": dict(
+        technique="static analysis over the clang-14 JSON AST of c/*.c and the nanobind glue plus Python ast: cross-language ABI table (dtype/contiguity/arity by backward def-use with call context), swapped-argument detector, OpenMP data-sharing and mixed-radix subscript-injectivity analysis with callee write summaries, preprocessor-block and serial/parallel twin comparison, symbolic bounds of every write against malloc sizes / fixed extents / Python allocation shapes, constant and sibling-kernel agreement",
+        level="other",
+        text="Decides the shape-of-code failure modes the property names: a kernel reinterpreting a buffer (dtype, layout, argument order, axis), a data race or order-dependent shared accumulation in any of the 11 parallel regions (for every schedule and thread count), code that exists only in the OpenMP build, a write past a temporary, a fixed-extent array or the array Python allocated, leaks, and diverging cross-language constants. Does not decide that loop-nest kernels compute the reference values (that is decided for the closed-form kernels under C10/C11 only).",
+        note="Trusted: clang-14 JSON AST, the 30-line nanobind/omp.h stubs under /verif/stubs, sympy polynomial arithmetic. Assumptions (value ranges / injectivity of integer index maps supplied by the Python layer) are printed in the evidence. Unresolved Python arguments are listed as unknown, never reported.",
+        ref="DESIGN.md §3 C13",
+    ),
     "C20": dict(
         technique="static analysis: source-to-sympy translation of the three equations of state and symbolic differentiation (12 defining-meaning obligations); open-term normal-form comparison of the QHA finite-difference, unit and PV formulas with the documented ones; dispatch/unpack-order table rules",
         level="proof",
